@@ -24,6 +24,19 @@ GOENV = {
 }
 
 
+def _geo_fatal(err):
+    """(kind, function) if the text is a Go fatal-error dump whose stack shows golang/geo, else None."""
+    m = re.search(r"fatal error: ([^\n]+)", err)
+    if not m:
+        return None
+    kind = re.sub(r"[^a-z0-9]+", "-", m.group(1).lower()).strip("-")[:40]
+    fs = re.findall(r"github\.com/golang/geo/[\w./]*?\.((?:\(\*?\w+\)\.)?\w+)", err)
+    if not fs:
+        return None
+    # the function that appears most often in the dump (the recursion, for a stack overflow)
+    return kind, max(sorted(set(fs)), key=fs.count)
+
+
 class Infra(Exception):
     """Infrastructure problem: exit 2, never a violation."""
 
@@ -287,7 +300,7 @@ class Ctx:
             raise Infra("harness timeout: %s" % " ".join(args))
         return p
 
-    def replay(self, cases, timeout=900, jobs=None, name=None, confirm=True, postprocess=None):
+    def replay(self, cases, timeout=900, jobs=None, name=None, confirm=True, postprocess=None, depth=0):
         """Run `vcheck replay` over a list of case dicts.  Returns the merged
         result dict; confirmed violations are appended to self.violations (or
         matched against known findings)."""
@@ -301,8 +314,41 @@ class Ctx:
         if jobs:
             args += ["--jobs", str(jobs)]
         p = self.run_harness(args, timeout=timeout)
+        fatal = []
         if p.returncode != 0 or not os.path.exists(out):
-            raise Infra("vcheck replay failed rc=%s: %s" % (p.returncode, (p.stderr or p.stdout)[-3000:]))
+            # The process died.  A Go fatal error (stack overflow, concurrent map access, out of
+            # memory) cannot be recovered inside the harness; if its stack shows the library, find
+            # the case that kills a fresh process on its own: that is behaviour of the real code.
+            err = (p.stderr or "") + (p.stdout or "")
+            if not _geo_fatal(err):
+                raise Infra("vcheck replay failed rc=%s: %s" % (p.returncode, err[-3000:]))
+            culprit = self.locate_fatal(cases, timeout)
+            if culprit is None:
+                raise Infra("vcheck replay died (rc=%s) but no single case reproduces it: %s" % (p.returncode, err[-2000:]))
+            idx, key, detail = culprit
+            fatal.append({"key": key, "detail": detail, "case": cases[idx], "fatal": True})
+            rest = cases[:idx] + cases[idx + 1:]
+            empty = {"evaluations": 0, "nontrivial": 0, "violations": [], "samples": [], "counters": {}}
+            res = empty
+            if rest and depth < 2:
+                try:
+                    res = self.replay(rest, timeout=timeout, jobs=jobs, confirm=False, postprocess=None, depth=depth + 1)
+                except Infra as e:
+                    # more cases than can be isolated one by one kill the process: the verdict rests on
+                    # the case already isolated; the other cases of this file were not evaluated
+                    self.notes.append("replay of the remaining %d cases died again: %s" % (len(rest), str(e)[:200]))
+                    res = empty
+            res["violations"] = fatal + res.get("violations", [])
+            res["evaluations"] = res.get("evaluations", 0) + 1
+            res["nontrivial"] = res.get("nontrivial", 0) + 1
+            self.evaluations += 1
+            self.nontrivial += 1
+            self.traces += 1
+            if postprocess:
+                res["violations"] = fatal + postprocess([v for v in res["violations"] if not v.get("fatal")])
+            if confirm:
+                self.handle_violations(res.get("violations", []), context=cases)
+            return res
         res = json.load(open(out))
         self.evaluations += res.get("evaluations", 0)
         self.nontrivial += res.get("nontrivial", 0)
@@ -317,6 +363,39 @@ class Ctx:
         if confirm:
             self.handle_violations(res.get("violations", []), context=cases)
         return res
+
+    def _dies(self, cases, timeout, tag):
+        """Runs the cases in a fresh process; returns the output if it died with a fatal error in the library."""
+        path = self.write_cases("fatal-%s.ndjson" % tag, cases)
+        out = path + ".result.json"
+        if os.path.exists(out):
+            os.remove(out)
+        p = self.run_harness(["replay", "--in", path, "--out", out], timeout=timeout)
+        if p.returncode != 0 and not os.path.exists(out):
+            err = (p.stderr or "") + (p.stdout or "")
+            if _geo_fatal(err):
+                return err
+        return None
+
+    def locate_fatal(self, cases, timeout):
+        """Bisects for one case that kills a fresh process on its own (twice)."""
+        lo, hi = 0, len(cases)
+        n = 0
+        while hi - lo > 1:
+            mid = (lo + hi) // 2
+            n += 1
+            if self._dies(cases[lo:mid], timeout, "b%d" % n):
+                hi = mid
+            elif self._dies(cases[mid:hi], timeout, "c%d" % n):
+                lo = mid
+            else:
+                return None   # needs a combination of cases: no verdict
+        err = self._dies(cases[lo:hi], timeout, "single1")
+        if not err or not self._dies(cases[lo:hi], timeout, "single2"):
+            return None
+        kind, fn = _geo_fatal(err)
+        op = cases[lo].get("op", "?") if isinstance(cases[lo], dict) else "?"
+        return lo, "%s/fatal/%s/%s" % (op, kind, fn), "the process dies with a Go fatal error (%s) in %s while running this case alone" % (kind, fn)
 
     # ------------------------------------------------------- trace direction
     def validate_trace(self, module, path, invariants, timeout=1200):
@@ -459,6 +538,8 @@ class Ctx:
         case = v.get("case")
         if case is None:
             return True
+        if v.get("fatal"):
+            return self._dies([case], 600, "confirm") is not None
         path = self.write_cases("confirm-%s.ndjson" % hashlib.sha1(v["key"].encode()).hexdigest()[:10], [case])
         out = path + ".result.json"
         p = self.run_harness(["replay", "--in", path, "--out", out], timeout=300)
